@@ -183,6 +183,10 @@ def matrix_protos():
     mk(alpha_tag('Mo', j), [Field('ref', 'Book', packet='Book', named=True), num('Post', 'u16')],
        subs=[('Book', [Field('ref', 'Best', packet='Level', named=True), Field('ref', 'Worst', packet='Level', named=True)]), ('Level', [num('Px', 'i64'), dyn('Venue')])],
        options={'LittleEndian': 'true'})
+    # inline objects of one NAME with different members in different packets
+    j += 1
+    mk(alpha_tag('Mo', j), [Field('inline', 'Leg', fields=[num('Ratio', 'u16')]), Field('ref', 'Hedge', packet='Hedge', named=True), num('Post', 'u16')],
+       subs=[('Hedge', [num('Qty', 'u32'), Field('inline', 'Leg', fields=[num('Px', 'i64'), num('Flag', 'u8')], repeat=True)])])
     # three levels of inline nesting, repeated at two of them, next to a plain member of each level
     for le in (None, 'true'):
         j += 1
@@ -225,6 +229,18 @@ def matrix_protos():
                       Field('match', 'BodyA', key='KindA', pairs=[([1], 'Logon'), ([2], 'Logout')]),
                       Field('match', 'BodyB', key='KindB', pairs=[([5], 'Logout'), ([6], 'Logon')])],
        subs=[('Logon', [dyn('User')]), ('Logout', [num('Code', 'u8')])])
+    # lists of string keys; a key above the int range as the FIRST pair; an empty packet as the first alternative; a one-pair table
+    j += 1
+    mk(alpha_tag('Mm', j), [fix('Kind', 2), Field('match', 'Body', key='Kind', pairs=[(['TX', 'NT'], 'Logon'), (['PG'], 'Logout'), (['AA', 'BB', 'CC'], 'Beat')]), num('Post', 'u16')],
+       subs=[('Logon', [dyn('User')]), ('Logout', [num('Code', 'u8')]), ('Beat', [])])
+    j += 1
+    mk(alpha_tag('Mm', j), [num('Channel', 'u32'), Field('match', 'Body', key='Channel', pairs=[([4000000001], 'Logon'), ([7], 'Logout')]), num('Post', 'u16')],
+       subs=[('Logon', [dyn('User')]), ('Logout', [num('Code', 'u8')])])
+    j += 1
+    mk(alpha_tag('Mm', j), [num('Kind', 'u8'), Field('match', 'Body', key='Kind', pairs=[([0], 'Beat'), ([1], 'Logon'), ([2], 'Logout')]), num('Post', 'u16')],
+       subs=[('Beat', []), ('Logon', [dyn('User'), num('Ival', 'u16')]), ('Logout', [num('Code', 'u8')])], options={'LittleEndian': 'true'})
+    j += 1
+    mk(alpha_tag('Mm', j), [num('Kind', 'u16'), Field('match', 'Body', key='Kind', pairs=[([7], 'Ping')]), num('Post', 'u16')], subs=[('Ping', [num('Seq', 'u32')])])
     # two match fields keyed by the SAME field
     j += 1
     mk(alpha_tag('Mm', j), [num('Kind', 'u8'),
@@ -281,6 +297,11 @@ def matrix_protos():
                       Field('match', 'Body', key='MsgType', pairs=[([1], 'Logon'), ([2], 'Beat')]),
                       Field('cksum', 'Check', ntype='u32', algo='CRC32', prefixed=True, typed=True)],
        subs=[('Logon', [fix('User', 10, pad=('left', '0')), dyn('Secret'), num('Client', 'u64')]), ('Beat', [])])
+    # two checksum fields in one packet, different algorithms (header sum + trailer CRC); registered + unregistered
+    for a1, a2, le in (('SUM8', 'CRC32', None), ('Xor8', 'NOPE', 'true'), ('NOPE', 'Mix32', None)):
+        j += 1
+        mk(alpha_tag('Mc', j), [num('MsgType', 'u16'), Field('cksum', 'HdrSum', ntype='u8', algo=a1, prefixed=False, typed=True), dyn('Text'),
+                                Field('cksum', 'Trailer', ntype='u32', algo=a2, prefixed=(le is not None), typed=True)], options={'LittleEndian': le} if le else None)
     # MetaData
     j = 0
     md = [('Common', [MetaEntry('Seq', base=num('Seq', 'u32')), MetaEntry('Code', base=fix('Code', 4)), MetaEntry('Zed', base=fix('Zed', 6, zchar=True)),
